@@ -284,8 +284,13 @@ def main(module, argv=None):
             native = native_run(spec["native_script"])
         confirmed = bool(native and native.get("violates"))
         os.makedirs(replay_dir, exist_ok=True)
-        h = hashlib.sha256((r["name"] + "#" + str(r.get("family")) + "#" + str(r.get("path"))).encode()).hexdigest()[:12]
+        h = hashlib.sha256((r["name"] + "#" + str(r.get("family")) + "#" + str(r.get("path")) + "#" +
+                            json.dumps(r.get("info"), sort_keys=True, default=str)).encode()).hexdigest()[:12]
         rp = os.path.join(replay_dir, h + ".json")
+        k = 1
+        while rp in {x["replay"] for x in reported}:
+            k += 1
+            rp = os.path.join(replay_dir, f"{h}-{k}.json")
         payload = {"property": prop, "obligation": r["name"], "clause": r.get("clause"),
                    "source": r.get("source"), "backend": r.get("backend", "z3-5.1.0-api"),
                    "solver_output": r.get("solver_output"), "witness": r.get("witness"),
